@@ -1,4 +1,5 @@
 import SafeNet.Proofs.StoreCap
+import SafeNet.Proofs.StoreFlush
 /-!
 # C10 — store capacity, distance-based eviction and quoting metrics are exact
 
@@ -187,6 +188,26 @@ theorem metrics_exact (cfg : Cfg) (dist : Nat → Nat) (s : St) (hv : Views dist
   · simp only [metrics, contains]
     exact lookup_isSome_iff
 
+/-- `metrics_exact` after **any** history and schedule (crashes and reopenings included). -/
+theorem metrics_exact_reachable (cfg : Cfg) (dist : Nat → Nat) (inj : Injective dist) (ops : List Op) (k : Nat) :
+    let s := run cfg dist ops
+    let m := metrics cfg s k
+    m.close = (match s.range with
+      | some r => (s.index.filter (fun e => decide (dist e.1 < r))).length
+      | none => s.index.length) ∧
+    m.max = cfg.maxRecords ∧ m.paid = s.payments ∧ (m.stored = true ↔ k ∈ keys s.index) ∧ m.density = s.range :=
+  metrics_exact cfg dist _ (Views.run cfg inj ops) k
+
+/-- `cleanup_exact` after **any** history and schedule. -/
+theorem cleanup_exact_reachable (cfg : Cfg) (dist : Nat → Nat) (inj : Injective dist) (ops : List Op) :
+    (cleanup cfg dist (run cfg dist ops)).index =
+      match (run cfg dist ops).range with
+      | none => (run cfg dist ops).index
+      | some r =>
+        if (run cfg dist ops).index.length < cfg.cleanupMin then (run cfg dist ops).index
+        else (run cfg dist ops).index.filter (fun e => decide (dist e.1 < r)) :=
+  cleanup_exact cfg dist _ (Views.run cfg inj ops)
+
 def countPayments : List Op → Nat
   | [] => 0
   | .payment :: ops => countPayments ops + 1
@@ -281,6 +302,34 @@ theorem payments_survive_restart (cfg : Cfg) (dist : Nat → Nat) (s : St) (torn
     (hok : torn.all (tearOk s) = true) (hflushed : s.hist = some s.payments) :
     (step cfg dist s (.crash torn)).1.payments = s.payments := by
   simp [step, hok, restart, hflushed]
+
+/-- **Payments survive a restart, after any history.** Named hypothesis `FlushFifo`: the metrics-flush tasks
+complete in the order they were spawned (two flushes completing out of order can persist the older count — the
+model keeps that behaviour). Then in every reachable state with no flush pending the file holds the current
+count, so a stop (with any torn writes) and restart reports exactly the payments received so far. -/
+theorem payments_survive_restart_history (cfg : Cfg) (dist : Nat → Nat) (ops : List Op)
+    (hf : FlushFifo cfg dist (init cfg dist) ops) (hdone : flushVals (run cfg dist ops).tasks = [])
+    (torn : List (Nat × Nat)) (hok : torn.all (tearOk (run cfg dist ops)) = true) :
+    (step cfg dist (run cfg dist ops) (.crash torn)).1.payments = (run cfg dist ops).payments := by
+  have hinv : FlushInv (run cfg dist ops) := FlushInv.runFrom cfg dist ops (FlushInv.init cfg dist) hf
+  have hl := hinv.last
+  rw [hdone] at hl
+  exact payments_survive_restart cfg dist _ torn hok hl
+
+/-- non-vacuity: two payments, flushes completing in order, stop and restart: both payments are still counted;
+with the second flush overtaking the first the hypothesis fails (and the older count would be persisted) -/
+example :
+    let cfg := Cfg.shipped 4 2
+    let d : Nat → Nat := fun k => k
+    flushFifoB cfg d (init cfg d) [.run 0, .payment, .payment, .run 1, .run 2] = true ∧
+    flushVals (run cfg d [.run 0, .payment, .payment, .run 1, .run 2]).tasks = [] ∧
+    flushFifoB cfg d (init cfg d) [.run 0, .payment, .payment, .run 2, .run 1] = false ∧
+    (run cfg d [.run 0, .payment, .payment, .run 2, .run 1, .crash []]).payments = 1 := by
+  decide
+
+/-- completion notifications wait for room on the command channel instead of being dropped (regenerated from
+`send_local_swarm_cmd`): every acknowledged write reaches `mark_as_stored`, which the counts above rely on -/
+theorem notifications_not_dropped : Gen.Store.notificationSenderWaits = true := by decide
 
 /-! ## capacity -/
 
@@ -379,6 +428,37 @@ example :
       s.cache = [(1, 3, 0)] := by
   decide
 
+/-! ## non-vacuity -/
+
+/-- at capacity 2 with keys 1 and 3 held: key 2 (closer than 3) is accepted and evicts exactly 3; key 4 (farther)
+is refused and nothing changes -/
+example :
+    let cfg := Cfg.shipped 2 5
+    let s := run cfg (fun k => k) [.run 0, .put 1 3 .chunk, .run 1, .deliver 1, .put 3 9 .chunk, .run 2, .deliver 2]
+    s.farthest = some (3, 3) ∧
+    (putVerified cfg (fun k => k) s 2 6 .chunk).2 = .ok ∧ keys (putVerified cfg (fun k => k) s 2 6 .chunk).1.index = [1] ∧
+    (putVerified cfg (fun k => k) s 4 12 .chunk).2 = .maxRecords ∧ (putVerified cfg (fun k => k) s 4 12 .chunk).1.index = s.index := by
+  decide
+
+/-- clean-up with threshold 2 and range 2: of the held keys 1, 2, 3 exactly 2 and 3 (distance ≥ 2) go, and one
+file deletion per removed key is queued; below the threshold nothing happens -/
+example :
+    let cfg := { Cfg.shipped 9 5 with cleanupMin := 2 }
+    let s := run cfg (fun k => k)
+      [.run 0, .put 1 3 .chunk, .put 2 6 .chunk, .put 3 9 .chunk, .run 1, .run 2, .run 3, .deliver 1, .deliver 2, .deliver 3,
+       .setRange 2]
+    keys (cleanup cfg (fun k => k) s).index = [1] ∧ (cleanup cfg (fun k => k) s).tasks.length = 2 ∧
+    (cleanup { cfg with cleanupMin := 4 } (fun k => k) s).index = s.index ∧
+    (metrics cfg s 1).close = 1 ∧ (metrics cfg s 1).max = 9 ∧ (metrics cfg s 7).stored = false := by
+  decide
+
+/-- payments are counted and, once flushed, survive a restart -/
+example :
+    let cfg := Cfg.shipped 4 2
+    let s := run cfg (fun k => k) [.run 0, .payment, .payment, .run 1, .run 2, .crash []]
+    s.payments = 2 ∧ (metrics cfg s 1).paid = 2 := by
+  decide
+
 /-- regenerated operators and constants the statements above were proved against -/
 example : Gen.Store.pruneRefuseStrict = true ∧ Gen.Store.farthestUpdateStrict = true ∧
     Gen.Store.withinRangeExclusive = true ∧ Gen.Store.cleanupFromInclusive = true ∧
@@ -389,8 +469,12 @@ example : Gen.Store.pruneRefuseStrict = true ∧ Gen.Store.farthestUpdateStrict 
 #print axioms SafeNet.Props.C10.at_capacity_decision_reachable
 #print axioms SafeNet.Props.C10.cleanup_exact
 #print axioms SafeNet.Props.C10.metrics_exact
+#print axioms SafeNet.Props.C10.metrics_exact_reachable
+#print axioms SafeNet.Props.C10.cleanup_exact_reachable
 #print axioms SafeNet.Props.C10.payments_exact
 #print axioms SafeNet.Props.C10.payments_survive_restart
+#print axioms SafeNet.Props.C10.payments_survive_restart_history
+#print axioms SafeNet.Props.C10.notifications_not_dropped
 #print axioms SafeNet.Props.C10.capacity_bound_partial
 #print axioms SafeNet.Props.C10.refused_put_leaves_no_trace
 #print axioms SafeNet.Props.C10.capacity_overrun_witness
